@@ -403,7 +403,7 @@ func dequeNonEmpty(c *Ctx, fn *ssa.Function, b *ssa.BasicBlock, idx int, recv ss
 			return
 		}
 		cal := staticCallee(&call.Call)
-		if cal == nil || cal.Name() != "maybeExpand" || len(call.Call.Args) == 0 || !same(call.Call.Args[0]) {
+		if cal == nil || fname(cal) != "maybeExpand" || len(call.Call.Args) == 0 || !same(call.Call.Args[0]) {
 			return
 		}
 		if (bb == b && i < idx) || (bb != b && bb.Dominates(b)) {
@@ -419,7 +419,7 @@ func dequeNonEmpty(c *Ctx, fn *ssa.Function, b *ssa.BasicBlock, idx int, recv ss
 			return false
 		}
 		cal := staticCallee(&call.Call)
-		return cal != nil && cal.Name() == "Len" && len(call.Call.Args) == 1 && same(call.Call.Args[0]) && isNamedTypeDeep(call.Call.Args[0].Type(), "container/deque", "Deque")
+		return cal != nil && fname(cal) == "Len" && len(call.Call.Args) == 1 && same(call.Call.Args[0]) && isNamedTypeDeep(call.Call.Args[0].Type(), "container/deque", "Deque")
 	}
 	gs := guardsOf(b)
 	nonNeg := func(v ssa.Value) bool {
